@@ -187,7 +187,8 @@ example : okEq (keywordValues (cs "CHG") [cs "EXACHG=1", cs "CHG=-1"]) [-1] = tr
 universal-newlines translation rewrites `\r\n` and a lone `\r` to `\n` before the text is split into lines;
 `splitlines` treats exactly those as one terminator, so for EVERY decoded content the translated text splits into
 the same lines and the graph (or the exception) is the same.  Every theorem about `graphFromMolfileText` is thereby
-a theorem about files on disk; not modelled: the filesystem, the decoding of the bytes, the suffix check. -/
+a theorem about files on disk; not modelled: the filesystem and the decoding of the bytes (the suffix check in front
+of the `open` is `C07_graph_from_file_suffix`). -/
 theorem C07_graph_from_file (t : Str) :
     splitLines (universalNewlines t) = splitLines t ∧ graphFromFileContent t = graphFromMolfileText t :=
   ⟨splitLines_universalNewlines t, graphFromFileContent_eq t⟩
